@@ -24,7 +24,8 @@ structure RunSt where
   pcfg : Option RCfg := none
   ps : PState := PState.init 0
   early : Option Int := none   -- dispatcher family: status of the gateway-made early answer
-  dkind : String := "fixed"    -- early-answering remedy: fixed | strategy | concurrency
+  dkind : String := "fixed"    -- early-answering remedy: fixed | strategy | concurrency | replay | cache
+  stored : AMap Int := []      -- replay/cache kinds: endpoint ↦ status of the stored provider response
 
 def parseRanges (s : String) : Option (List (Int × Int)) :=
   if s == "-" then some [] else
@@ -179,7 +180,11 @@ def fmtPOut : POut → String
 def parseKind (ws : List String) : Option String :=
   match kv ws "kind" with
   | none => some "fixed"
-  | some k => if k == "fixed" || k == "strategy" || k == "concurrency" then some k else none
+  | some k =>
+    if k == "fixed" || k == "strategy" || k == "concurrency" || k == "replay" || k == "cache" then some k else none
+
+/-- kinds whose early answer is a stored provider response replayed to later requests -/
+def replays (k : String) : Bool := k == "replay" || k == "cache"
 
 /-- endpoint letter: `r` carries a retry remedy, `n` does not (default `r`) -/
 def parseEp (ws : List String) : Option String :=
@@ -216,12 +221,18 @@ def policyStep (s : RunSt) (ws : List String) : RunSt × String :=
       | some ep =>
         if e > 1 || (s.dkind != "fixed" && e == 0) then (s, "bad-op")
         else if e == 0 then (s, "pass")
-        else if ep == "n" then
-          -- no retry remedy on this endpoint: the early answer leaves the gateway as it is
-          (s, s!"early status={st} noop")
         else
-          let (ps', o) := presp cfg s.ps (pctDec sE) (pctDec idE == pctDec sE) st
-          ({ s with ps := ps' }, s!"early status={st} {fmtPOut o}")
+          -- status of the answer the gateway makes by itself (none: the request passes)
+          let answered : Option Int := if replays s.dkind then lookup ep s.stored else some st
+          match answered with
+          | none => (s, "pass")
+          | some st =>
+            if ep == "n" then
+              -- no retry remedy on this endpoint: the early answer leaves the gateway as it is
+              (s, s!"early status={st} noop")
+            else
+              let (ps', o) := presp cfg s.ps (pctDec sE) (pctDec idE == pctDec sE) st
+              ({ s with ps := ps' }, s!"early status={st} {fmtPOut o}")
     | _, _, _, _, _ => (s, "bad-op")
   | "dresp" :: r =>
     match s.pcfg, s.early, kv r "id", kv r "seq", kvInt r "status" with
@@ -229,6 +240,10 @@ def policyStep (s : RunSt) (ws : List String) : RunSt × String :=
       match parseEp r with
       | none => (s, "bad-op")
       | some ep =>
+        -- replay kinds: the storing remedy (listed before the retry remedy) keeps the first storable response
+        let storable := (s.dkind == "cache" || (s.dkind == "replay" && some status == s.early))
+          && (lookup ep s.stored).isNone
+        let s := if storable then { s with stored := insert ep status s.stored } else s
         if ep == "n" then (s, "noop") else
         let (ps', o) := presp cfg s.ps (pctDec sE) (pctDec idE == pctDec sE) status
         ({ s with ps := ps' }, fmtPOut o)
@@ -283,6 +298,7 @@ structure JudgeSt where
   pcfg : Option RCfg := none
   pev : List PEvent := []        -- most recent first (reversed at the end)
   early : Option Int := none
+  dkind : String := "fixed"
   bad : Option String := none
 
 def setBad (s : JudgeSt) (m : String) : JudgeSt :=
@@ -368,14 +384,15 @@ def judgeStep (s : JudgeSt) (op out : String) : JudgeSt :=
     | some (cfg, _) => { s with pcfg := some cfg }
     | none => s
   | "dcfg" :: r =>
-    match parsePcfg r, parseEarly r with
-    | some (cfg, _), some e => { s with pcfg := some cfg, early := some e }
-    | _, _ => s
+    match parsePcfg r, parseEarly r, parseKind r with
+    | some (cfg, _), some e, some k => { s with pcfg := some cfg, early := some e, dkind := k }
+    | _, _, _ => s
   | "dreq" :: r =>
     -- a gateway-made early answer is a response of the sequence like any other
     match s.pcfg, s.early, kv r "id", kv r "seq", kvNat r "early" with
     | some cfg, some st, some idE, some sE, some e =>
-      if e == 0 then (if out == "pass" then s else setBad s ("request-not-passed:" ++ pctEnc out))
+      if e == 0 || (replays s.dkind && out == "pass") then
+        (if out == "pass" then s else setBad s ("request-not-passed:" ++ pctEnc out))
       else
         let o : Option POut :=
           match ows with
@@ -384,6 +401,7 @@ def judgeStep (s : JudgeSt) (op out : String) : JudgeSt :=
           | _ => none
         match o, kvInt ows "status" with
         | some o, some got =>
+          let st := if replays s.dkind then got else st
           if got != st then setBad s s!"early-answer-status={got}-configured={st}"
           else if parseEp r == some "n" then
             (if o == .noop then s
